@@ -802,7 +802,8 @@ def copyChunk : Nat → S → Nat → Nat → Nat → S × Nat × CopyEnd
 def setLimit (s : S) (n : Nat) : S := setW s { s.w with limit := n }
 
 /-- what `Conn.resumeLineLimit` counts of the buffered octets: the command lines — behind a BDAT command line that announces a size
-    comes the payload of that chunk, which is skipped (and if it is not buffered completely, nothing behind the line is counted) -/
+    comes the payload of that chunk, which is skipped (and if it is not buffered completely, nothing behind the line is counted);
+    behind a DATA, AUTH or STARTTLS line nothing is skipped any more (what follows may not be commands) -/
 def cutAtBdat : Nat → Bytes → Bytes
   | 0, rest => rest
   | fuel + 1, rest =>
@@ -820,6 +821,7 @@ def cutAtBdat : Nat → Bytes → Bytes
             | some size => if after.length ≤ size then line else line ++ cutAtBdat fuel (after.drop size)
             | none => line ++ cutAtBdat fuel after
           | [] => line ++ cutAtBdat fuel after
+        else if cmd == "DATA".b || cmd == "AUTH".b || cmd == "STARTTLS".b then rest
         else line ++ cutAtBdat fuel after
       | none => line ++ cutAtBdat fuel after
 
